@@ -692,23 +692,7 @@ Definition emits_valid (ms : list member) : bool :=
   | None => false
   end.
 
-(* ------------------------------------------- what goa validates about tags *)
-(* where a message's attributes come from: the unmapped top-level payload / result
-   (the only place validateRPCTags is applied), a top-level message next to a
-   Metadata / Headers / Trailers mapping, or a user type *)
-Inductive scope := TopPlain | TopMapped | Nested.
 
-(* validateRPCTags: unions skipped; every other attribute has a tag; no tag STRING twice *)
-Fixpoint goa_tags_ok (seen : list str) (ms : list member) : bool :=
-  match ms with
-  | [] => true
-  | MOneof _ _ :: r => goa_tags_ok seen r
-  | MField _ None _ _ :: _ => false
-  | MField _ (Some t) _ _ :: r => negb (mem t seen) && goa_tags_ok (t :: seen) r
-  end.
-
-Definition goa_accepts (sc : scope) (ms : list member) : bool :=
-  match sc with TopPlain => goa_tags_ok [] ms | _ => true end.
 
 (* ------------------------------------------------- designed tags of a message *)
 Definition member_attrs (m : member) : list (str * tag) :=
@@ -777,6 +761,45 @@ Definition wf_rpc (r : rpc) : bool :=
 
 Definition wf_file (f : file) : bool :=
   match f with File pkg svc rs ms => ident_ok pkg && ident_ok svc && forallb wf_rpc rs && forallb wf_msg ms end.
+
+(* ------------------------------------------- what goa validates about tags *)
+(* where a message's attributes come from: the unmapped top-level payload / result, a
+   top-level message next to a Metadata / Headers / Trailers / Message mapping, a
+   streaming payload, or a user type. validateRPCTags is applied to all of them. *)
+Inductive scope := TopPlain | TopMapped | Streaming | Nested.
+
+(* the number of an attribute's tag if validation accepts it: an integer in the
+   protobuf range *)
+Definition tag_number (t : tag) : option N :=
+  match t with
+  | Some s => match parse_uint s with
+              | Some n => if number_ok n then Some n else None
+              | None => None
+              end
+  | None => None
+  end.
+
+(* validateRPCTags: every attribute of the message, union alternatives included, has
+   a tag that parses to a valid field number; no NUMBER twice *)
+Fixpoint goa_numbers_ok (seen : list N) (attrs : list (str * tag)) : bool :=
+  match attrs with
+  | [] => true
+  | a :: r =>
+    match tag_number (snd a) with
+    | Some n => negb (existsb (N.eqb n) seen) && goa_numbers_ok (n :: seen) r
+    | None => false
+    end
+  end.
+
+(* hasAnyType: map keys print as protobuf key types *)
+Definition goa_map_keys_ok (ms : list member) : bool :=
+  forallb (fun m => match m with
+                    | MField _ _ _ (TMap kt _) => match simple_name kt with Some n => key_ok n | None => false end
+                    | _ => true
+                    end) ms.
+
+Definition goa_accepts (sc : scope) (ms : list member) : bool :=
+  goa_numbers_ok [] (msg_attrs ms) && goa_map_keys_ok ms.
 
 (* ------------------------------------------------ the parse a description denotes *)
 Definition sname (t : ty) : str := match simple_name t with Some n => n | None => [] end.
